@@ -430,6 +430,29 @@ def main(argv):
                 return 1
             print("NOT-REPRODUCED (violations seen: %s)" % [x["signature"] for x in out["violations"]])
             return 0
+        if cmd == "mkfinding":
+            # development aid: (re)create the committed replay file of every known finding of a property
+            prop = argv[1]
+            nruns = int(argv[2]) if len(argv) > 2 else 2000
+            known = [k for k in load_known() if k.get("property") == prop and k.get("status") == "finding"]
+            for m in machines_for(prop):
+                tot = explore(m, 0, "quick", nruns, int(os.environ.get("DSIM_PROCS", "16")))
+                for key, lst in sorted(tot["violations"].items()):
+                    sig = lst[0]["violation"]["signature"]
+                    kf = match_known(known, prop, sig)
+                    if kf is None or not kf.get("replay"):
+                        continue
+                    dest = os.path.join(VERIF, kf["replay"])
+                    if os.path.exists(dest):
+                        continue
+                    plan = engine.minimise(m, lst[0]["plan"], key, time_budget=60, log=log)
+                    out = engine.execute(m, plan)
+                    v = engine._has_sig(out, key)
+                    path = write_replay(prop, m, 0, lst[0]["run"], plan, v, out["digest"])
+                    os.makedirs(os.path.dirname(dest), exist_ok=True)
+                    os.replace(path, dest)
+                    print("wrote", dest)
+            return 0
         if cmd == "show":
             # debugging aid: run one index and dump events
             mname, seed, tier, i = argv[1], int(argv[2]), argv[3], int(argv[4])
